@@ -547,6 +547,8 @@ class RandomGen:
             top = b.fns[top - 1]['parent']
         cands = [f for f in range(2, len(b.fns) + 1) if b.fns[f - 1]['parent'] == fn
                  or (b.fns[f - 1]['parent'] == 0 and (top == 1 or f < top))]
+        if top != 1 and fn == top and self.r.random() < 0.3:
+            cands = cands + [top]           # a module-level function calling itself (the bounds end the recursion)
         if not cands:
             return None
         f = self.r.choice(cands)
